@@ -11,9 +11,9 @@
  *   dflt stk|guard|bind|cf D S        -> dflt <value as size_t>       (D = built-in default, for the model only)
  *   dflt nw NCPU S_NUM_WORKERS S_WORKER_NUM -> dflt <value as size_t>
  *   gattr NCPU DS DG DB DC S1..S6     -> gattr stack guard nw bind cf initialized  (myth_globalattr_init_body)
- *   cpul CAP S                        -> ok k v1..vk | err <msg> ok=<ok_pos> i=<i> | err minus-one
+ *   cpul CAP S                        -> ok k v1..vk | err raw=h:<hex of the diagnostic on stderr>
  *                                        (+ " overflow" if a cell beyond CAP or beyond k was written)
- *   avail NCPU K c1..cK S NR          -> avail n t1..tn ranks r0..r(NR-1)   (affinity mask set to c1..cK first)
+ *   avail NCPU K c1..cK S NR          -> avail n t1..tn ranks r0..r(NR-1) diag=h:<hex of stderr>   (affinity mask set to c1..cK first)
  */
 #include <stdio.h>
 #include <stdlib.h>
@@ -99,24 +99,12 @@ static void do_case(char * line) {
       for (i = r; i < cap; i++) if (a[i] != CANARY) over = 1;
       printf("ok %d", r);
       for (i = 0; i < r && i < MAXCAP; i++) printf(" %d", a[i]);
-    } else if (errlen == 0) {
-      printf("err minus-one");
     } else {
-      static const char pre[] = "myth_parse_cpu_list: invalid resource list: ";
-      const char * m = "unknown";
-      long e = (long)errlen, sp = 0, ca = 0;
-      if (e > 0 && errbuf[e - 1] == '\n') e--;
-      while (e > 0 && errbuf[e - 1] == '^') { ca++; e--; }
-      while (e > 0 && errbuf[e - 1] == ' ') { sp++; e--; }
-      if (e > 0 && errbuf[e - 1] != '\n') m = "garbled";
-      else if (strncmp(errbuf, pre, sizeof pre - 1) != 0) m = "garbled";
-      else {
-        const char * t = errbuf + sizeof pre - 1;
-        if (strncmp(t, "expected a digit\n", 17) == 0) m = "expected-digit";
-        else if (strncmp(t, "junk at the end of CPU list\n", 28) == 0) m = "junk";
-        else if (strncmp(t, "myth_parse_cpu_list: too many numbers in MYTH_CPU_LIST\n", 55) == 0) m = "too-many";
-      }
-      printf("err %s ok=%ld i=%ld", m, sp - 2, sp - 2 + ca);
+      /* the captured diagnostic, verbatim: tools/props/c15.py classifies it with the message texts it
+         reads from the CURRENT source, so a reworded message is not a difference but a dropped one is */
+      size_t k;
+      printf("err raw=h:");
+      for (k = 0; k < errlen; k++) printf("%02x", (unsigned char)errbuf[k]);
     }
     printf("%s\n", over ? " overflow" : "");
   } else if (strcmp(w[0], "avail") == 0) {
@@ -134,6 +122,8 @@ static void do_case(char * line) {
     for (i = 0; i < n_available_cpus; i++) printf(" %d", worker_cpu[i]);
     printf(" ranks");
     for (i = 0; i < nr; i++) printf(" %d", myth_get_worker_cpu(i));
+    printf(" diag=h:");
+    { size_t k; for (k = 0; k < errlen; k++) printf("%02x", (unsigned char)errbuf[k]); }
     printf("\n");
   } else {
     printf("bad-op\n");
